@@ -87,8 +87,8 @@ CovTags(e) ==
    \cup Tag(k = "duplicate" /\ AtLive(e) /\ s.inMesh /\ r.st = "valid" /\ e.p \notin r.peers /\ now - r.validated = TP(e.t).win, 10)
    \cup Tag(k = "duplicate" /\ AtLive(e) /\ s.inMesh /\ r.st = "valid" /\ e.p \notin r.peers /\ now - r.validated > TP(e.t).win, 11)
    \cup Tag(k = "duplicate" /\ AtLive(e) /\ r.st = "invalid", 12)
-   \cup Tag(k = "setparams" /\ Scored(e.t) /\ \E p \in tracked : ts[p][e.t].fmd > e.tp.c2 * S \/ ts[p][e.t].mmd > e.tp.c3 * S, 13)
-   \cup Tag(k = "setparams" /\ ~Scored(e.t), 14)
+   \cup Tag(upd /\ \E p \in tracked : ts[p][e.t].fmd > e.tp.c2 * S \/ ts[p][e.t].mmd > e.tp.c3 * S, 13)
+   \cup Tag(k = "setparams" /\ ~Scored(e.t) /\ ValidTP(e.tp), 14)
    \cup Tag(clk /\ \E p \in tracked : par.cap > 0 /\ TopicSum(p) > par.cap * S2
                                 /\ Cardinality({t \in ScoredTopics : TopicScore(p, t) > 0}) >= 2, 15)
    \cup Tag(clk /\ \E p \in tracked : C6(p) < 0, 16)
